@@ -423,6 +423,7 @@ struct Plan {
     includes: u64,
     deep: u64,
     prices: u64,
+    large: u64,
     cli: u64,
 }
 
@@ -505,6 +506,84 @@ fn price_graph(rng: &mut Rng) -> (String, &'static str) {
     (out, shape)
 }
 
+/// Inputs far beyond the usual size: (0) an ordinary ledger of 40 000 - 120 000 transactions
+/// (2 - 8 MB) through the real binary, where every command must finish within the 10 CPU-second
+/// limit (okane needs well under a second: the work must stay linear in the file size); (1) single
+/// tokens of 70 000 characters (account, commodity, payee, code, note; also on a posting that has
+/// only a balance assertion); (2) one expression of 100 000 terms.
+fn run_large_case(ctx: &Ctx, rng: &mut Rng, rec: &mut Recorder, i: u64) {
+    match i % 3 {
+        0 => {
+            let n = if ctx.tier == Tier::Thorough { 60_000 + rng.usize(60_001) } else { 40_000 };
+            let mut text = String::with_capacity(n * 70);
+            for k in 0..n {
+                let day = 1 + (k / 1500) % 28;
+                let month = 1 + (k / 42_000) % 12;
+                text.push_str(&format!("2024/{:02}/{:02} shop {}\n    Expenses:Food:K{}    {}.{:02} USD\n    Assets:Cash\n\n", month, day, k, k % 97, 1 + k % 400, k % 100));
+            }
+            let dir = ctx.scratch.join("c06large");
+            let _ = std::fs::create_dir_all(&dir);
+            let path = dir.join("large.ledger");
+            if std::fs::write(&path, &text).is_err() {
+                rec.skip();
+                return;
+            }
+            rec.nontrivial(&format!("large-ledger-{}", n));
+            rec.count_n("large-ledger:transactions", n as u64);
+            let p = path.to_string_lossy().into_owned();
+            for cmd in [vec!["balance", "--now", "2025-01-01", p.as_str()], vec!["register", "--now", "2025-01-01", p.as_str()], vec!["accounts", p.as_str()], vec!["format", p.as_str()]] {
+                rec.op(&format!("okane {} (large ledger)", cmd[0]), &format!("{} generated transactions", n));
+                let Ok(out) = cli::run_okane(&ctx.cli_a, &cmd, &dir) else {
+                    rec.skip();
+                    continue;
+                };
+                let class = out.class();
+                rec.count(&format!("cli-large:{}:{}", cmd[0], class));
+                if class != "ok" {
+                    let what = match out.signal {
+                        Some(sig) if sig == libc::SIGXCPU || sig == libc::SIGKILL => "hang".to_string(),
+                        _ if out.stderr.contains("overflowed its stack") => "stack-overflow".to_string(),
+                        _ => class.clone(),
+                    };
+                    rec.violation(
+                        "cli-abnormal-exit",
+                        &format!("{}|{}|large-ledger", cmd[0], what),
+                        &format!("okane {} on an ordinary ledger of {} transactions ({} bytes) ended with {} (limit: 10 CPU-seconds)", cmd[0], n, text.len(), class),
+                        json!({"argv": cmd, "transactions": n, "bytes": text.len(), "head": text.chars().take(300).collect::<String>(), "status": class, "stderr": out.stderr.chars().take(600).collect::<String>()}),
+                    );
+                }
+            }
+            let _ = std::fs::remove_file(&path);
+        }
+        1 => {
+            let long = |c: char| c.to_string().repeat(70_000);
+            let _ = &rng;
+            for (k, text) in [
+                format!("2024/01/01 p\n    Assets:{}    1 USD\n    B\n", long('a')),
+                format!("2024/01/01 p\n    A    1 {}\n    B\n", long('C')),
+                format!("2024/01/01 p\n    A    1 USD\n    B    = 0 {}\n", long('C')),
+                format!("2024/01/01 {}\n    A    1 USD\n    B\n", long('p')),
+                format!("2024/01/01 ({}) p\n    A    1 USD\n    B\n", long('7')),
+                format!("2024/01/01 p\n    ; {}\n    A    1 USD\n    B\n    ; :{}:\n", long('n'), long('t')),
+            ]
+            .iter()
+            .enumerate()
+            {
+                rec.count("large:long-token");
+                exercise_text_tagged(rec, text, true, &format!("@long-token-{}", ["account", "commodity", "assertion-only-commodity", "payee", "code", "metadata"][k]));
+                rec.nontrivial(&format!("long-token-{}", fnv64(text.as_bytes())));
+            }
+        }
+        _ => {
+            let terms = 100_000;
+            let text = format!("2024/01/01 p\n    A    (1 USD{})\n    B\n", " + 1 USD".repeat(terms));
+            rec.count("large:long-chain");
+            exercise_text_tagged(rec, &text, true, "@long-operator-chain");
+            rec.nontrivial("long-chain");
+        }
+    }
+}
+
 fn plan(tier: Tier) -> Plan {
     Plan {
         prefix_gen: tier.pick(1_500, 60_000),
@@ -515,6 +594,7 @@ fn plan(tier: Tier) -> Plan {
         includes: tier.pick(3_000, 100_000),
         deep: (DEPTHS.len() * 4) as u64,
         prices: tier.pick(400, 30_000),
+        large: tier.pick(6, 48),
         cli: tier.pick(250, 6_000),
     }
 }
@@ -613,7 +693,7 @@ impl Check for C06 {
 
     fn cases(&self, tier: Tier) -> u64 {
         let p = plan(tier);
-        p.prefix_gen + p.prefix_seed + p.mutate + p.random + p.zeros + p.includes + p.deep + p.prices + p.cli
+        p.prefix_gen + p.prefix_seed + p.mutate + p.random + p.zeros + p.includes + p.deep + p.prices + p.large + p.cli
     }
 
     fn chunk(&self, tier: Tier) -> u64 {
@@ -792,6 +872,12 @@ impl Check for C06 {
             }
             return;
         }
+        i -= p.prices;
+        if i < p.large {
+            run_large_case(ctx, &mut rng, rec, i);
+            rec.count("family:large-input");
+            return;
+        }
         run_cli_case(ctx, &mut rng, rec, idx);
         rec.count("family:cli");
     }
@@ -803,7 +889,7 @@ impl Check for C06 {
          ledgers with zeros and boundary values in every slot that accepts a number, and with date-shaped tokens of 5-12 bytes (widths other than 4-2-2, mixed separators) as transaction, effective and lot date; include graphs of 2-5 files with self-includes, \
          cycles (also through edges written as patterns), globs, missing and malformed targets on the in-memory and the real file system; nesting depth 1..30000 of \
          parentheses / unary minus / operator chains within 64 KiB; price graphs with many equally good conversion chains (rows of 5-45 \
-         diamonds, cliques of 5-14, chains of 30-200, grids up to 7x7, random graphs; all rates on 1-3 days); black-box runs of the real binary (format, balance, balance -X, \
+         diamonds, cliques of 5-14, chains of 30-200, grids up to 7x7, random graphs; all rates on 1-3 days); inputs far beyond the usual size (an ordinary ledger of 40 000-120 000 transactions through the binary, single tokens of 70 000 characters, one expression of 100 000 terms); black-box runs of the real binary (format, balance, balance -X, \
          --historical, register, accounts, primitive flatten, primitive eval). Operations per input: parse_ledger (+ Display of \
          the error), FormatOptions::format, report::process on the fake file system followed by balance (plain, ranged, -X \
          up-to-date and historical for up to 4 commodities), eval, postings with running totals, report::accounts. Non-trivial = \
